@@ -23,7 +23,7 @@ RULE = ("doctests of 1..8 statements from {emit (prints), an expression printing
         "alone, after other output, or together with a returned value}; after a statement a want is placed with p=0.55 in one of the forms "
         "A/B/C that applies; statements without wants are split into several parts by prose/blank lines so the "
         "accumulation buffer holds 1..4 entries; in half of the cases exactly one want is corrupted (replace, append, "
-        "prepend, drop-last, stale = the output already consumed by the previous want prepended; the previous want may be one "
+        "prepend, drop-last, stale = the output already consumed by the previous want prepended; noellipsis = the tail of the correct text replaced by '...' while an inline -ELLIPSIS switches the wildcard off; the previous want may be one "
         "switched off by an inline +IGNORE_WANT) and the remaining statements follow it.  Plus doctests in which nothing can run (comment "
         "only, all under +SKIP, google block without prompts).  Non-trivial = at least one want placed; distinct by "
         "docstring hash")
@@ -36,7 +36,7 @@ ASSUMPTIONS = [
 ]
 NSHARDS = {'quick': 16, 'thorough': 16}
 FORMS = 'ABC'
-CORRUPTIONS = ['replace', 'append', 'prepend', 'drop', 'stale', 'stale']
+CORRUPTIONS = ['replace', 'append', 'prepend', 'drop', 'stale', 'stale', 'noellipsis', 'noellipsis']
 
 
 def required_cells(tier):
@@ -47,6 +47,8 @@ def required_cells(tier):
             if f == 'C' and c == 'drop':
                 continue        # a repr is one line
             if c == 'stale' and f != 'A':
+                continue
+            if c == 'noellipsis' and f == 'B':
                 continue
             cells.append('corrupt:%s:%s' % (f, c))
     cells += ['depth:1', 'depth:2', 'depth:3', 'nothing-ran:comment-only', 'nothing-ran:skip-block',
@@ -176,7 +178,16 @@ def plan_wants(rng, S, ref, corrupt):
                     c = 'replace'
                 if c == 'stale' and not any(w != '<BLANKLINE>' for w in stale):
                     c = 'replace'
-                if c == 'stale':
+                if c == 'noellipsis' and not (len(st.lines) == 1 and len(wl) == 1 and len(wl[0]) >= 3 and
+                                              '...' not in wl[0] and '#' not in st.lines[0]):
+                    c = 'replace'
+                if c == 'noellipsis':
+                    # the correct text with its tail replaced by '...', and the wildcard switched off for this
+                    # statement: the dots are literal, the want is wrong (whatever is compared with it: the output,
+                    # the final statement's output or the repr of its value)
+                    wl = [wl[0][:rng.randint(1, len(wl[0]) - 2)] + '...']
+                    st.lines[0] += '  # xdoctest: -ELLIPSIS'
+                elif c == 'stale':
                     # the output printed before the PREVIOUS want, then the correct text: that output is no longer
                     # "since the previous want", so this is not a trailing portion of what may be matched
                     wl = stale + wl
